@@ -51,12 +51,16 @@ BUILD = [
     b"czqv_m\nC\n)",          # TWO values: class + empty tuple (operands for NEWOBJ_EX / REDUCE)
     b"\x8f(",                 # set + MARK (operands for ADDITEMS)
     b"\x8c\x06zqv_m2\x8c\x01g",  # TWO strings (operands for STACK_GLOBAL)
+    b"N",                     # None (e.g. a BUILD state)
+    b"\x88",                  # True
+    b"(K\x01K\x02K\x01K\x03d",  # dict via DICT with a duplicate key: the VM keeps the later value
+    b"}(K\x01K\x02K\x01K\x03u",  # dict via SETITEMS with a duplicate key
 ]
 NB = len(BUILD)
 MEMO = [b"", b"\x94", b"q\x05"]
 OPS = [b"0", b"2", b"a", b"e", b"s", b"u", b"\x90", b"t", b"\x85", b"\x86", b"R", b"b", b"o", b"\x81", b"1", b"l", b"d", b"\x91",
        b"h\x00", b"h\x05", b"\x94", b"N", b"Q", b"\x92", b")", b"\x93", b"izqv_m\nC\n", b"}", b"(", b"q\x05"]
-OBS = [b".", b"0.", b"N.", b"h\x00.", b"h\x05.", b"0h\x00.", b"}b.", b"]\x94h\x00\x86."]
+OBS = [b".", b"0.", b"N.", b"h\x00.", b"h\x05.", b"0h\x00.", b"}b.", b"]\x94h\x00\x86.", b"Nb."]
 
 
 def both(h, hm, hl, prog):
@@ -95,6 +99,9 @@ def both(h, hm, hl, prog):
 def _compare(src, log_v, v_res):
     st, env, log_d = exec_decompiled(src)
     if st != "ok":
+        if isinstance(env, NameError):
+            # a name the program uses was never imported or bound: the import the VM performs is missing
+            return "EVENTS", "decompiled program uses an unbound name (%s) | %r" % (env, src)
         return "EXEC", "%s: %s | %r" % (type(env).__name__, env, src)
     vm_events = [e for e in log_v if not (e[0] == "import" and e[1] == "builtins")]
     missing = missing_events([strip_ids(e) for e in vm_events], [strip_ids(e) for e in log_d])
@@ -117,9 +124,10 @@ def classify(b1, b2, op):
 def failure_key(verdict, detail):
     """signature of a failing program, for failures recorded as known findings by what goes wrong"""
     d = detail or ""
-    if verdict == "EXEC" and "AttributeError" in d and "object has no attribute" in d and any(
-            ("'%s' object has no attribute '%s'" % (t, a)) in d for t in ("str", "int", "tuple", "list", "dict", "set", "NoneType", "bytes")
-            for a in ("__setstate__", "update", "extend")):
+    import builtins as _b
+    import re as _re
+    m = _re.search(r"'(\w+)' object has no attribute '(__setstate__|update|extend)'", d)
+    if verdict == "EXEC" and "AttributeError" in d and m and isinstance(getattr(_b, m.group(1), None) or (type(None) if m.group(1) == "NoneType" else None), type):
         return "noop-mutation-of-builtin"
     return None
 
@@ -132,10 +140,12 @@ def make_lock(op, oracle):
     enumerated natively inside each path (a path = one (base, b1, b2) cell of the partition)"""
     def lem(h: int, b1: int, b2: int) -> bool:
         """
-        pre: 0 <= h <= 1 and 0 <= b1 < 20 and 0 <= b2 < 20
+        pre: 0 <= h <= 1 and 0 <= b1 < 24 and 0 <= b2 < 24
         post: _
         """
         if QUICK[0] and h != 0:
+            return True
+        if b1 >= NB or b2 >= NB:
             return True
         h, b1, b2 = pin(h, 0, 1), pin(b1, 0, NB - 1), pin(b2, 0, NB - 1)
         key = classify(b1, b2, op)
@@ -151,7 +161,7 @@ def make_lock(op, oracle):
 def _cell(op, oracle, h, b1, b2):
     """every (memo1, memo2, observer) program of the cell; returns None or a description of the first failure"""
     m1s = (0,) if QUICK[0] else (0, 1, 2)
-    obs = (0, 1, 2, 4) if QUICK[0] else range(len(OBS))
+    obs = (0, 1, 2, 4, 8) if QUICK[0] else range(len(OBS))
     bad = ("EVENTS",) if oracle == "C03" else ("VALUE", "EXEC")
     for m1 in m1s:
         for m2 in (0, 1, 2):
@@ -236,16 +246,40 @@ def _plain(prog):
         src = ast.unparse(Pickled.load(prog).ast)
     except Exception:
         return "refused", None
-    st, env, log_d = exec_decompiled(src)
-    if st != "ok":
-        return "EXEC", "%s: %s | %r" % (type(env).__name__, env, src)
-    vm_events = [e for e in log_v if not (e[0] == "import" and e[1] == "builtins")]
-    missing = missing_events([strip_ids(e) for e in vm_events], [strip_ids(e) for e in log_d])
-    if missing:
-        return "EVENTS", "missing %r | %r" % (dict(missing), src)
-    if strip_ids(canon(v_res)) != strip_ids(canon(env.get("result"))):
-        return "VALUE", "vm %r != decompiled %r | %r" % (strip_ids(canon(v_res)), strip_ids(canon(env.get("result"))), src)
-    return "ok", None
+    return _compare(src, log_v, v_res)
+
+
+from vf.vocab import vocabulary
+V_MODS = vocabulary()[0]
+
+
+def imports_vocab(mi: int) -> bool:
+    """
+    pre: 0 <= mi < 200
+    post: _
+    """
+    # every module name of the harvested vocabulary (incl. the modules compiled into the interpreter) through every
+    # global-resolving opcode, resolved only / called / called and discarded
+    if mi >= len(V_MODS):
+        return True
+    mi = pin(mi, 0, len(V_MODS) - 1)
+    with native():
+        m = V_MODS[mi].encode()
+        progs = [b"c" + m + b"\nf\n.", b"c" + m + b"\nf\n)R.", b"c" + m + b"\nf\n)R0N.",
+                 b"\x8c" + bytes([len(m)]) + m + b"\x8c\x01f\x93.", b"\x8c" + bytes([len(m)]) + m + b"\x8c\x01f\x93)R0N.",
+                 b"(i" + m + b"\nf\n.", b"(K\x01i" + m + b"\nf\n0N.", b"(c" + m + b"\nf\nK\x01o0N.", b"c" + m + b"\nf\n)\x810N."]
+        bad = ("EVENTS",) if ORACLE_T[0] == "C03" else ("VALUE", "EXEC", "EVENTS")
+        for prog in progs:
+            verdict, detail = _plain(prog)
+            rt.reach(verdict in ("ok", "EVENTS", "VALUE", "EXEC"))
+            if verdict in bad:
+                LAST[0] = "%s on program %r: %s" % (verdict, prog, detail)
+                return False
+        return True
+
+
+LAST = [None]
+ORACLE_T = ["C03"]
 
 
 def refusal(i: int) -> bool:
@@ -276,7 +310,10 @@ def lemmas(tier, oracle=None):
     oracle = oracle or ORACLE
     q = tier == "quick"
     QUICK[0] = q
-    L = []
+    ORACLE_T[0] = oracle
+    L = [Lemma("imports_vocab", imports_vocab, timeout=300 if q else 900, dry=[{"mi": 0}, {"mi": 5}],
+               doc={"F": ["solver-partitioned: module name from the %d-name vocabulary harvested from /repo (tables, literals, sys.builtin_module_names, fresh names)" % len(V_MODS),
+                          "enumerated per cell: 9 programs (GLOBAL / STACK_GLOBAL / INST / OBJ / NEWOBJ, resolved only, called, called and discarded)"], "bound": "one global per program"})]
     for op in range(len(OPS)):
         L.append(Lemma("lock_%s_%02d" % (oracle, op), make_lock(op, oracle), timeout=400 if q else 3000, replay=make_replay(op, oracle),
                        dry=[{"h": 0, "b1": 10, "b2": 0}, {"h": 0, "b1": 3, "b2": 0}],
